@@ -44,8 +44,8 @@ PLANS = {
         "model_checking",
         ["present.ok", "present.exact", "present.weak", "present.jwt", "present.shape", "present.kb.none", "present.kb"],
         [RT],
-        [REPLAY_RT_Q, {"driver": "rich", "args": {"n": 700, "depth": 5, "arbsel": 0.4}}],
-        [REPLAY_RT_T, {"driver": "rich", "args": {"n": 20000, "depth": 8, "arbsel": 0.4}}],
+        [REPLAY_RT_Q, {"driver": "rich", "args": {"n": 700, "depth": 5, "arbsel": 0.4}}, {"driver": "history", "args": {"random": 120}}],
+        [REPLAY_RT_T, {"driver": "rich", "args": {"n": 20000, "depth": 8, "arbsel": 0.4}}, {"driver": "history", "args": {"random": 3000}}],
         required={"present.exact": 400, "present.weak": 500, "present.kb": 50},
         nontrivial_event="Present",
         rule="cases = Present events: TLC-generated type-consistent selections (every prefix length, one element too many) and seeded "
@@ -106,8 +106,10 @@ PLANS.update({
         "model_checking",
         ["verify.lenient.kb", "verify.lenient.args", "verify.accept", "present.kb", "present.kb.none", "scn.expect.reject", "scn.expect.claims", "scn.model.agrees"],
         [ADV("kb")],
-        [{"driver": "replay", "scn": "MC_adv", "args": {"n": 600, "matrix": 0}}, {"driver": "attack", "args": {"n": 12, "family": "kb", "stride": 25}}],
-        [{"driver": "replay", "scn": "MC_adv", "args": {"n": 6000, "matrix": 0}}, {"driver": "attack", "args": {"n": 24, "family": "kb", "stride": 1}}],
+        [{"driver": "replay", "scn": "MC_adv", "args": {"n": 600, "matrix": 0}}, {"driver": "attack", "args": {"n": 12, "family": "kb", "stride": 25}},
+         {"driver": "rich", "args": {"n": 400, "depth": 3, "arbsel": 0, "kb": 1, "xfmt": 1}}],
+        [{"driver": "replay", "scn": "MC_adv", "args": {"n": 6000, "matrix": 0}}, {"driver": "attack", "args": {"n": 24, "family": "kb", "stride": 1}},
+         {"driver": "rich", "args": {"n": 10000, "depth": 6, "arbsel": 0, "kb": 1, "xfmt": 1}}],
         required={"verify.lenient.kb": 300, "verify.lenient.args": 50, "verify.accept": 20, "present.kb": 100},
         rule="cases = behaviours of MC_kb (move / strip / alter / re-sign / forge the KB-JWT, change the disclosure list afterwards, six (aud, nonce) expectations) replayed "
              "in both serializations + every single-character edit of real KB-JWTs and disclosure lists changed after the KB-JWT was made; distinct = distinct attacked presentations",
@@ -115,12 +117,12 @@ PLANS.update({
     ),
     "C10": P(
         "model_checking",
-        ["pair.format", "pair.present", "pair.present.st", "holder.new"],
+        ["pair.format", "pair.present", "holder.new"],
         [ADV("kb")],
         [{"driver": "replay", "scn": "MC_adv", "args": {"n": 400, "matrix": 0}}, {"driver": "attack", "args": {"n": 12, "family": "all", "stride": 40}},
-         {"driver": "rich", "args": {"n": 300, "depth": 4, "arbsel": 0.2, "xfmt": 1}}],
+         {"driver": "rich", "args": {"n": 300, "depth": 4, "arbsel": 0.2, "xfmt": 1}}, {"driver": "history", "args": {"random": 100, "only": "holder"}}],
         [{"driver": "replay", "scn": "MC_adv", "args": {"n": 6000, "matrix": 0}}, {"driver": "attack", "args": {"n": 60, "family": "all", "stride": 3}},
-         {"driver": "rich", "args": {"n": 10000, "depth": 7, "arbsel": 0.2, "xfmt": 1}}],
+         {"driver": "rich", "args": {"n": 10000, "depth": 7, "arbsel": 0.2, "xfmt": 1}}, {"driver": "history", "args": {"random": 3000, "only": "holder"}}],
         required={"pair.format": 1000, "pair.present": 150, "holder.new": 300},
         rule="cases = pairs (Compact, JSON) of the same abstract message: every Verify of the replayed MC_kb behaviours and of the tampering families (honest and tampered), "
              "JSON spelled with kb_jwt absent / null / an unknown member; holders built from both forms of random SD-JWTs presenting the same selection; distinct = distinct pairs",
@@ -219,7 +221,7 @@ MANIFEST_TEXT["C13"] = {
 
 PLANS["C15"] = P(
     "model_checking",
-    ["pair.present", "pair.present.st", "present.ok", "present.exact", "holder.new", "verify.accept", "verify.view", "verify.genuine", "scn.expect.claims", "scn.expect.reject", "scn.model.agrees"],
+    ["pair.present", "present.ok", "present.exact", "holder.new", "verify.accept", "verify.view", "verify.genuine", "scn.expect.claims", "scn.expect.reject", "scn.model.agrees"],
     [{"module": "MC_narrow", "quick": "MC_narrow_quick.cfg", "thorough": "MC_narrow.cfg", "timeout": {"quick": 300, "thorough": 3000}}],
     [{"driver": "replay", "scn": "MC_narrow", "args": {"n": 500, "matrix": 1}}],
     [{"driver": "replay", "scn": "MC_narrow", "args": {"n": 20000, "matrix": 1}}],
@@ -238,18 +240,19 @@ MANIFEST_TEXT["C15"] = {
 
 def _order_leak(merged):
     a = merged["agg"]
-    n, mo, dl = a.get("n", 0), a.get("mo", 0), a.get("dl", 0)
-    if n < 200:
-        raise RuntimeError(f"order-leak clause not exercised: only {n} _sd lists with >= 2 real digests")
-    return (not (mo == n or dl == n)), f"n={n} lists in member order={mo} decoys last={dl}"
+    n0, mo0, n1, mo1, dl1 = (a.get(k, 0) for k in ("n0", "mo0", "n1", "mo1", "dl1"))
+    if n0 < 200 or n1 < 200:
+        raise RuntimeError(f"order-leak clause not exercised: {n0} _sd lists with >= 2 real digests without decoys, {n1} with decoys (need 200 each)")
+    bad = mo0 == n0 or mo1 == n1 or dl1 == n1
+    return (not bad), (f"without decoys: {n0} lists with >= 2 real digests, {mo0} in member order; with decoys: {n1} lists, {mo1} in member order, {dl1} with all decoys last")
 
 
 PLANS["C12"] = P(
     "model_checking",
     ["issue.decoys", "issue.refs", "issue.exact", "present.exact", "verify.view", "verify.accept", "order.leak"],
     [RT],
-    [REPLAY_RT_Q, {"driver": "rich", "args": {"n": 500, "depth": 5, "arbsel": 0, "decoy": 1}}, {"driver": "rich", "args": {"n": 500, "depth": 4, "only": "issue", "decoy": 1}}],
-    [REPLAY_RT_T, {"driver": "rich", "args": {"n": 10000, "depth": 8, "arbsel": 0, "decoy": 1}}, {"driver": "rich", "args": {"n": 30000, "depth": 6, "only": "issue", "decoy": 1}}],
+    [REPLAY_RT_Q, {"driver": "rich", "args": {"n": 500, "depth": 5, "arbsel": 0, "decoy": 1}}, {"driver": "rich", "args": {"n": 700, "depth": 4, "only": "issue"}}],
+    [REPLAY_RT_T, {"driver": "rich", "args": {"n": 10000, "depth": 8, "arbsel": 0, "decoy": 1}}, {"driver": "rich", "args": {"n": 30000, "depth": 6, "only": "issue"}}],
     required={"issue.decoys": 1000, "verify.view": 500},
     aggregate={"order.leak": _order_leak},
     nontrivial_event="Issue",
